@@ -5,7 +5,7 @@
 From Coq Require Import List NArith Bool Lia Arith.
 Import ListNotations.
 Require Import RV.Model.C17_Jmt RV.Model.C18_Store RV.Proof.C17_Base RV.Proof.C17_Lists
-               RV.Proof.C17_Update.
+               RV.Proof.C17_Update RV.Proof.C17_Tier RV.Proof.C17_Root RV.Proof.C18_Store.
 Open Scope N_scope.
 
 Lemma app_cons_inj : forall (p : list N) n r m r', p ++ n :: r = p ++ m :: r' -> n = m.
@@ -465,5 +465,227 @@ Section REACH.
           destruct (GS k Hst) as (m & cm & Hm & Ecm & Hin). destruct (PathNib m cm Hin) as [r1 E1]. destruct (PathNib n c Hk) as [r2 E2].
           rewrite E1 in E2. apply app_cons_inj in E2. subst m.
           rewrite <- M in Hm. apply (nassoc_some_in n rs Hm). exact Enr.
+  Qed.
+
+  (* ---------- one commit on a tier ---------- *)
+  Definition reach (fuel : nat) (root : option (N * nodeA)) : list skey :=
+    match root with Some (v, t) => tkeys fuel [] v t | None => [] end.
+
+  (* C18_reach_step for a tier: every node the new root refers to was written by this commit
+     (new version) or is a node of the old tree that this commit did not report stale; every node
+     reported stale is a node of the old tree, and the old root is reported stale *)
+  Theorem tier_reach_step : forall fuel root ver ups U h t lg,
+    (0 < fuel)%nat -> pfree U -> ~ U [] -> ups_ok A U fuel ups -> state_ok H A U fuel root ->
+    tier_put H A fuel root ver ups = Ok (h, t, lg) ->
+    (forall k, In k (reach fuel (Some (ver, t))) ->
+       In k (new_keys ver lg) \/ (In k (reach fuel root) /\ ~ In k (l_stale lg))) /\
+    (forall k, In k (l_stale lg) -> In k (reach fuel root)) /\
+    (forall v0 t0, root = Some (v0, t0) -> In (v0, []) (l_stale lg)) /\
+    (forall k, In k (new_keys ver lg) -> fst k = ver).
+  Proof.
+    intros fuel root ver ups U h t lg Hf PF U0 OK SO E.
+    destruct (value_set_spec A ups) as (V1 & V2 & V3).
+    assert (OKk : kvs_ok A U fuel (value_set A ups)) by (intros x Hx; apply OK; apply V3; exact Hx).
+    assert (Fresh : forall k, In k (new_keys ver lg) -> fst k = ver).
+    { intros k Hk. unfold new_keys in Hk. apply in_map_iff in Hk. destruct Hk as (x & Ex & _). subst k. reflexivity. }
+    unfold tier_put in E.
+    set (core := match root with
+                 | Some (v0, t0) => bia H A fuel (lh_root H) [] ver v0 t0 (value_set A ups)
+                 | None => bus H A fuel (lh_root H) [] ver (value_set A ups) end) in E.
+    destruct core as [[r lg0]| |] eqn:EC; try discriminate.
+    (* facts about the core update, uniformly *)
+    assert (Core : (forall k, In k (l_stale lg0) -> In k (reach fuel root)) /\
+                   (forall v0 t0, root = Some (v0, t0) -> In (v0, []) (l_stale lg0)) /\
+                   (forall t', r = Some t' -> forall k, In k (tl (tkeys fuel [] ver t')) ->
+                      In k (new_keys ver lg0) \/ (In k (reach fuel root) /\ ~ In k (l_stale lg0)))).
+    { unfold core in EC. destruct root as [[v0 t0]|].
+      - destruct (SO v0 t0 eq_refl) as [[En|G] TO].
+        + subst t0. destruct fuel as [|f]; [lia|]. cbn [bia] in EC.
+          destruct (bus H A (S f) (lh_root H) [] ver (value_set A ups)) as [[r1 lg1]| |] eqn:EB; try discriminate.
+          inversion EC; subst. destruct (bus_keys _ _ _ _ _ _ _ EB) as (B1 & B2 & B3).
+          split; [|split].
+          * intros k Hk. rewrite l_stale_lapp, B1, app_nil_r in Hk. destruct Hk as [Ek|[]]. subst k. left. reflexivity.
+          * intros v1 t1 E1. inversion E1; subst. rewrite l_stale_lapp. left. reflexivity.
+          * intros t' Et k Hk. left. unfold new_keys. rewrite l_new_lapp. cbn [log_stale l_new app]. apply (B3 t' Et k Hk).
+        + destruct (bia_keys fuel (lh_root H) [] ver v0 t0 (value_set A ups) U r lg0 G V1 PF OKk TO (fun _ => U0) EC) as (K1 & K2 & K3 & K4).
+          split; [exact K1|]. split.
+          * intros v1 t1 E1. inversion E1; subst. exact K2.
+          * intros t' Et k Hk. destruct (K4 t' Et k Hk) as [Hn|[Ho Hs]]; [left; exact Hn|right]. split; [apply tl_incl; exact Ho|exact Hs].
+      - destruct (bus_keys _ _ _ _ _ _ _ EC) as (B1 & B2 & B3). split; [|split].
+        + intros k Hk. rewrite B1 in Hk. contradiction.
+        + intros v0 t0 E0. discriminate.
+        + intros t' Et k Hk. left. apply (B3 t' Et k Hk). }
+    destruct Core as (C1 & C2 & C3).
+    assert (Fin : forall r', t = r' -> lg = lapp A lg0 (log_new A [] r') -> (r = Some r' \/ (r = None /\ r' = Null)) ->
+              (forall k, In k (reach fuel (Some (ver, t))) ->
+                 In k (new_keys ver lg) \/ (In k (reach fuel root) /\ ~ In k (l_stale lg))) /\
+              (forall k, In k (l_stale lg) -> In k (reach fuel root)) /\
+              (forall v0 t0, root = Some (v0, t0) -> In (v0, []) (l_stale lg)) /\
+              (forall k, In k (new_keys ver lg) -> fst k = ver)).
+    { intros r' Et El Hr. subst t lg.
+      assert (ES : l_stale (lapp A lg0 (log_new A [] r')) = l_stale lg0) by (rewrite l_stale_lapp; cbn [log_new l_stale]; apply app_nil_r).
+      split; [|split; [|split]].
+      - intros k Hk. cbn [reach] in Hk. destruct (tkeys_cons fuel [] ver r') as [rr Err]. rewrite Err in Hk. rewrite ES.
+        destruct Hk as [Ek|Hk].
+        + left. unfold new_keys. rewrite l_new_lapp, map_app. apply in_or_app. right. cbn. left. exact Ek.
+        + destruct Hr as [Er|[Er En]].
+          * assert (Hk' : In k (tl (tkeys fuel [] ver r'))) by (rewrite Err; exact Hk).
+            destruct (C3 r' Er k Hk') as [Hn|Ho]; [left|right; exact Ho].
+            unfold new_keys in *. rewrite l_new_lapp, map_app. apply in_or_app. left. exact Hn.
+          * subst r'. destruct fuel; cbn in Err; inversion Err; subst rr; contradiction.
+      - intros k Hk. rewrite ES in Hk. apply C1. exact Hk.
+      - intros v0 t0 E0. rewrite ES. apply (C2 v0 t0 E0).
+      - exact Fresh. }
+    destruct r as [r'|].
+    - injection E as Eh Et El. apply (Fin r'); [symmetry; exact Et|symmetry; exact El|left; reflexivity].
+    - injection E as Eh Et El. apply (Fin Null); [symmetry; exact Et|symmetry; exact El|right; split; reflexivity].
+  Qed.
+
+  (* ---------- versions: keys are never reused ---------- *)
+  Definition vers_le (v : N) (ks : list skey) : Prop := forall k, In k ks -> fst k <= v.
+
+  (* one commit: parts reported stale, and everything that was already dead, is unreachable from
+     the new root; all keys the new root refers to have version <= the new version *)
+  Theorem tier_dead_step : forall fuel root ver ups U h t lg (D : list skey) v0,
+    (0 < fuel)%nat -> pfree U -> ~ U [] -> ups_ok A U fuel ups -> state_ok H A U fuel root ->
+    tier_put H A fuel root ver ups = Ok (h, t, lg) ->
+    vers_le v0 (reach fuel root) -> vers_le v0 D -> v0 < ver ->
+    (forall k, In k D -> ~ In k (reach fuel root)) ->
+    vers_le ver (reach fuel (Some (ver, t))) /\
+    vers_le v0 (l_stale lg) /\
+    forall k, In k D \/ In k (l_stale lg) -> ~ In k (reach fuel (Some (ver, t))).
+  Proof.
+    intros fuel root ver ups U h t lg D v0 Hf PF U0 OK SO E VR VD Lt Dead.
+    destruct (tier_reach_step fuel root ver ups U h t lg Hf PF U0 OK SO E) as (T1 & T2 & T3 & T4).
+    assert (VS : vers_le v0 (l_stale lg)) by (intros k Hk; apply VR; apply T2; exact Hk).
+    split; [|split; [exact VS|]].
+    - intros k Hk. destruct (T1 k Hk) as [Hn|[Ho _]]; [rewrite (T4 k Hn); lia|specialize (VR k Ho); lia].
+    - intros k Hd Hr. destruct (T1 k Hr) as [Hn|[Ho Hs]].
+      + pose proof (T4 k Hn) as Ev. assert (fst k <= v0) by (destruct Hd as [Hd|Hd]; [apply VD|apply VS]; exact Hd). lia.
+      + destruct Hd as [Hd|Hd]; [apply (Dead k Hd Ho)|apply (Hs Hd)].
+  Qed.
+
+  (* ---------- the store under immediate pruning ---------- *)
+  Lemma apply_ops_app : forall o1 o2 ts, apply_ops ts (o1 ++ o2) =
+    match apply_ops ts o1 with Ok ts1 => apply_ops ts1 o2 | Panic => Panic | OutOfFuel => OutOfFuel end.
+  Proof.
+    induction o1 as [|op o1 IH]; intros o2 ts; [reflexivity|]. cbn [app apply_ops].
+    destruct (apply_op ts op); [apply IH|reflexivity|reflexivity].
+  Qed.
+
+  Lemma apply_inserts : forall ver (l : list (list N * nodeA)) ts,
+    exists ts1, apply_ops ts (map (fun pn => OpInsert ver ([] ++ fst pn) (stored (snd pn))) l) = Ok ts1 /\
+      ts_pruning ts1 = ts_pruning ts /\
+      forall k, (st_get k (ts_nodes ts) <> None \/ In k (map (fun pn => (ver, fst pn)) l)) -> st_get k (ts_nodes ts1) <> None.
+  Proof.
+    intros ver l. induction l as [|[p n] l IH]; intro ts.
+    - exists ts. split; [reflexivity|]. split; [reflexivity|]. intros k [Hk|[]]. exact Hk.
+    - cbn [map apply_ops apply_op fst snd app].
+      destruct (IH (mkTStore (st_insert (ver, p) (stored n) (ts_nodes ts)) (ts_stale ts) (ts_pruning ts))) as (ts1 & E1 & P1 & G1).
+      exists ts1. split; [exact E1|]. split; [exact P1|]. intros k Hk. apply G1. cbn [ts_nodes].
+      destruct Hk as [Hk|[Ek|Hk]].
+      + left. rewrite st_get_insert. destruct (skey_eqb k (ver, p)); [discriminate|exact Hk].
+      + left. subst k. rewrite st_get_insert, skey_eqb_refl. discriminate.
+      + right. exact Hk.
+  Qed.
+
+  Lemma apply_stales : forall (l : list (N * list N)) ts, ts_pruning ts = true ->
+    exists ts2, apply_ops ts (map (fun vp => OpStale (StaleNode (fst vp) ([] ++ snd vp))) l) = Ok ts2 /\
+      ts_pruning ts2 = true /\
+      forall k, ~ In k l -> st_get k (ts_nodes ts2) = st_get k (ts_nodes ts).
+  Proof.
+    induction l as [|[v p] l IH]; intros ts P.
+    - exists ts. split; [reflexivity|]. split; [exact P|]. reflexivity.
+    - cbn [map apply_ops apply_op fst snd app]. rewrite P.
+      destruct (IH (mkTStore (st_remove (v, p) (ts_nodes ts)) (ts_stale ts) true) eq_refl) as (ts2 & E2 & P2 & G2).
+      exists ts2. split; [exact E2|]. split; [exact P2|]. intros k Hk. rewrite G2 by (intro Hin; apply Hk; right; exact Hin).
+      cbn [ts_nodes]. rewrite st_get_remove. destruct (skey_eqb (v, p) k) eqn:E0; [|reflexivity].
+      apply skey_eqb_eq in E0. exfalso. apply Hk. left. exact E0.
+  Qed.
+
+  (* C18_current_tree_intact for one commit of a tier: if every node the old root refers to is stored,
+     then after inserting the new nodes and pruning the stale ones every node the new root refers
+     to is stored *)
+  Theorem tier_intact_step : forall fuel root ver ups U h t lg ts v0,
+    (0 < fuel)%nat -> pfree U -> ~ U [] -> ups_ok A U fuel ups -> state_ok H A U fuel root ->
+    tier_put H A fuel root ver ups = Ok (h, t, lg) ->
+    vers_le v0 (reach fuel root) -> v0 < ver -> ts_pruning ts = true ->
+    (forall k, In k (reach fuel root) -> st_get k (ts_nodes ts) <> None) ->
+    exists ts', apply_ops ts (ops_of_log [] ver lg) = Ok ts' /\ ts_pruning ts' = true /\
+      forall k, In k (reach fuel (Some (ver, t))) -> st_get k (ts_nodes ts') <> None.
+  Proof.
+    intros fuel root ver ups U h t lg ts v0 Hf PF U0 OK SO E VR Lt P Stored.
+    destruct (tier_reach_step fuel root ver ups U h t lg Hf PF U0 OK SO E) as (T1 & T2 & T3 & T4).
+    unfold ops_of_log. rewrite apply_ops_app.
+    destruct (apply_inserts ver (l_new lg) ts) as (ts1 & E1 & P1 & G1). rewrite E1.
+    destruct (apply_stales (l_stale lg) ts1 (eq_trans P1 P)) as (ts2 & E2 & P2 & G2). rewrite E2.
+    exists ts2. split; [reflexivity|]. split; [exact P2|].
+    intros k Hk. destruct (T1 k Hk) as [Hn|[Ho Hs]].
+    - rewrite G2.
+      + apply G1. right. exact Hn.
+      + intro Hst. pose proof (T4 k Hn). pose proof (VR k (T2 k Hst)). lia.
+    - rewrite G2 by exact Hs. apply G1. left. apply Stored. exact Ho.
+  Qed.
+
+  (* ---------- every history of commits on a tier, store with immediate pruning ---------- *)
+  Fixpoint run_tier_store (fuel : nat) (root : option (N * nodeA)) (v : N) (ts : tstore) (h : list (list kv))
+    : res (option (N * nodeA) * N * tstore * list skey) :=
+    match h with
+    | [] => Ok (root, v, ts, [])
+    | u :: r =>
+      match tier_put H A fuel root (v + 1) u with
+      | Ok (_, t, lg) =>
+        match apply_ops ts (ops_of_log [] (v + 1) lg) with
+        | Ok ts' =>
+          match run_tier_store fuel (Some (v + 1, t)) (v + 1) ts' r with
+          | Ok (rf, vf, tsf, st) => Ok (rf, vf, tsf, l_stale lg ++ st)
+          | Panic => Panic | OutOfFuel => OutOfFuel
+          end
+        | Panic => Panic | OutOfFuel => OutOfFuel
+        end
+      | Panic => Panic | OutOfFuel => OutOfFuel
+      end
+    end.
+
+  (* C18_current_tree_intact and C18_stale_dead_forever for a tier: after EVERY history every node the
+     current root refers to is stored, and every part reported stale during the history (and every
+     key D that was already dead before it) is unreachable from the current root *)
+  Theorem tier_history_pruned : forall fuel U h root v ts D,
+    (0 < fuel)%nat -> pfree U -> ~ U [] -> Forall (ups_ok A U fuel) h -> state_ok H A U fuel root ->
+    vers_le v (reach fuel root) -> vers_le v D -> ts_pruning ts = true ->
+    (forall k, In k (reach fuel root) -> st_get k (ts_nodes ts) <> None) ->
+    (forall k, In k D -> ~ In k (reach fuel root)) ->
+    exists rf vf tsf st, run_tier_store fuel root v ts h = Ok (rf, vf, tsf, st) /\
+      (forall k, In k (reach fuel rf) -> st_get k (ts_nodes tsf) <> None) /\
+      (forall k, In k D \/ In k st -> ~ In k (reach fuel rf)) /\
+      vers_le vf (reach fuel rf) /\ vers_le vf st.
+  Proof.
+    intros fuel U h. induction h as [|u r IH]; intros root v ts D Hf PF U0 OK SO VR VD P Stored Dead.
+    - exists root, v, ts, []. split; [reflexivity|]. split; [exact Stored|]. split; [|split; [exact VR|intros k []]].
+      intros k [Hk|[]]. apply Dead. exact Hk.
+    - inversion OK as [|? ? OKu OKr]; subst.
+      destruct (tier_step H A fuel root (v + 1) u U Hf PF U0 OKu SO) as (hh & t & lg & E & S1 & _).
+      assert (Lt : v < v + 1) by lia.
+      destruct (tier_dead_step fuel root (v + 1) u U hh t lg D v Hf PF U0 OKu SO E VR VD Lt Dead) as (V1 & V2 & D1).
+      destruct (tier_intact_step fuel root (v + 1) u U hh t lg ts v Hf PF U0 OKu SO E VR Lt P Stored) as (ts' & Ea & P' & Stored').
+      assert (VD' : vers_le (v + 1) (D ++ l_stale lg)).
+      { intros k Hk. apply in_app_or in Hk. destruct Hk as [Hk|Hk]; [specialize (VD k Hk)|specialize (V2 k Hk)]; lia. }
+      destruct (IH (Some (v + 1, t)) (v + 1) ts' (D ++ l_stale lg) Hf PF U0 OKr S1 V1 VD' P' Stored')
+        as (rf & vf & tsf & st & Er & R1 & R2 & R3 & R4).
+      { intros k Hk. apply D1. apply in_app_or in Hk. exact Hk. }
+      exists rf, vf, tsf, (l_stale lg ++ st). cbn [run_tier_store]. rewrite E, Ea, Er. split; [reflexivity|]. split; [exact R1|].
+      split; [|split; [exact R3|]].
+      + intros k Hk. apply R2. destruct Hk as [Hk|Hk]; [left; apply in_or_app; left; exact Hk|].
+        apply in_app_or in Hk. destruct Hk as [Hk|Hk]; [left; apply in_or_app; right; exact Hk|right; exact Hk].
+      + intros k Hk. apply in_app_or in Hk. destruct Hk as [Hk|Hk]; [|apply R4; exact Hk].
+        (* versions only grow along the run *)
+        assert (Mono : forall h' root' v' ts0 rf' vf' tsf' st', run_tier_store fuel root' v' ts0 h' = Ok (rf', vf', tsf', st') -> v' <= vf').
+        { induction h' as [|u' r' IHh]; intros root' v' ts0 rf' vf' tsf' st' Erun; cbn [run_tier_store] in Erun.
+          - inversion Erun; subst. lia.
+          - destruct (tier_put H A fuel root' (v' + 1) u') as [[[? t1] lg1]| |]; try discriminate.
+            destruct (apply_ops ts0 (ops_of_log [] (v' + 1) lg1)) as [ts1| |]; try discriminate.
+            destruct (run_tier_store fuel (Some (v' + 1, t1)) (v' + 1) ts1 r') as [[[[rf1 vf1] tsf1] st1]| |] eqn:E1; try discriminate.
+            inversion Erun; subst. specialize (IHh _ _ _ _ _ _ _ E1). lia. }
+        specialize (Mono _ _ _ _ _ _ _ _ Er). specialize (V2 k Hk). lia.
   Qed.
 End REACH.
